@@ -9,8 +9,8 @@ import (
 	"time"
 
 	"github.com/sheerbytes/sheerbytes/internal/transfer"
-	vrt "github.com/sheerbytes/sheerbytes/internal/verif/vrt"
 	"github.com/sheerbytes/sheerbytes/internal/verif/vlib"
+	vrt "github.com/sheerbytes/sheerbytes/internal/verif/vrt"
 )
 
 // C05, metadata-level part: one real Sidecar under the parties that flush it in production - the
